@@ -663,7 +663,8 @@ def stream_numeric(ctx):
     import numpy
     import scipy.sparse
     st = Stream('expectation-variance-eigenspectrum', 'expectation / variance with state vectors (1-d, column) and density '
-                'matrices, through sparse matrices and LinearQubitOperators; eigenspectrum of Hermitian Qubit / Fermion '
+                'matrices, through sparse matrices and LinearQubitOperators, for Hermitian AND non-Hermitian operators (complex Pauli '
+                'strings, single hopping terms via jordan_wigner_sparse, truncated boson ladders: <O^2> - <O>^2); eigenspectrum of Hermitian Qubit / Fermion '
                 'operators; eigenspectrum / sparse_eigenspectrum / is_hermitian (sparse and dense matrix branches) on non-Hermitian '
                 'operators (complex diagonal, anti-Hermitian, hopping + imaginary diagonal, imaginary number operators) against '
                 'numpy.linalg.eigvals of the Spec matrix; compared (1e-9 / 1e-8) with direct linear algebra on the Spec matrix; '
@@ -720,9 +721,109 @@ def stream_numeric(ctx):
         elif len(spec) != dim or not float(numpy.max(numpy.abs(numpy.sort(numpy.real(spec)) - want_s))) <= 1e-9:
             st.violate('eigenspectrum != eigenvalues of the matrix of the operator', case,
                        {'got': [float(numpy.real(x)) for x in spec], 'want': want_s.tolist()})
+    from openfermion.linalg import sparse_tools as stl
+    # expectation / variance of NON-Hermitian operators: <O^2> - <O>^2 (not <O^dagger O> - <O>^2), for every admissible
+    # state format: 1-D ndarray, column ndarray, density matrix (pure and mixed)
+    def nh_cases():
+        Qo, Fo, Bo = of.QubitOperator, of.FermionOperator, of.BosonOperator
+        out = [('qubit', Qo('Z0', 1j), None), ('qubit', Qo('X0 Y1', 0.5 - 1j) + Qo('Z1', 2j), None),
+               ('fermion', Fo('0^ 2'), None), ('fermion', Fo('1^ 0', 1j), None),
+               ('boson', Bo('0'), 3), ('boson', Bo('0^'), 3)]
+        for _ in range(budget(ctx.tier, 14, 150)):
+            r = rng.random()
+            if r < 0.4:
+                out.append(('qubit', rand_qubit_op(rng, of, rng.randint(1, 3), rng.randint(1, 3), complex_typed=True), None))
+            elif r < 0.6:
+                p_, q_ = rng.sample(range(3), 2)
+                out.append(('fermion', Fo(((p_, 1), (q_, 0)), dyadic(rng, max_num=3, max_pow=1)), None))
+            elif r < 0.8:
+                out.append(('fermion', rand_fermion_op(rng, of, 3, rng.randint(1, 2)), None))
+            else:
+                t = tuple((rng.randrange(2), rng.randint(0, 1)) for _ in range(rng.randint(1, 3)))
+                out.append(('boson', Bo(t, dyadic(rng, max_num=3, max_pow=1)), rng.randint(2, 3)))
+        return out
+
+    for cls, op, trunc in nh_cases():
+        jop = enc_op(cls, op.terms)
+        case = {'fn': 'expectation/variance (non-Hermitian)', 'cls': cls, 'a': jop, 'trunc': trunc}
+        if cls == 'boson':
+            modes = max([i + 1 for t in op.terms for i, _ in t] + [0])
+            dim = trunc ** modes
+            b = numpy.zeros((trunc, trunc), dtype=complex)
+            for j in range(1, trunc):
+                b[j - 1, j] = numpy.sqrt(j)
+
+            def embed(m, mode, modes=modes, trunc=trunc):
+                o = numpy.eye(1, dtype=complex)
+                for j in range(modes):
+                    o = numpy.kron(o, m if j == mode else numpy.eye(trunc))
+                return o
+            D = numpy.zeros((dim, dim), dtype=complex)
+            for t, c in op.terms.items():
+                T = numpy.eye(dim, dtype=complex) * c
+                for i, a in t:
+                    T = T @ embed(b.conj().T if a == 1 else b, i)
+                D += T
+            kind, M = safe(of.get_sparse_operator, op, trunc=trunc)
+        else:
+            nq = max(of.count_qubits(op), 1)
+            dim = 2 ** nq
+            S = j_entries(ctx.driver.one({'op': 'c06.spec_matrix', 'alg': cls, 'n': nq, 'a': jop}))
+            D = numpy.zeros((dim, dim), dtype=complex)
+            for (r, c), v in S.items():
+                D[r, c] = complex(float(v[0]), float(v[1]))
+            if cls == 'fermion' and rng.random() < 0.5:
+                kind, M = safe(stl.jordan_wigner_sparse, op, nq)
+            else:
+                kind, M = safe(of.get_sparse_operator, op, nq)
+        if kind == 'err':
+            st.violate('sparse operator construction raised', case, M)
+            continue
+        if M.shape != (dim, dim):
+            st.violate('shape', case, M.shape)
+            continue
+        states = []
+        e0 = numpy.zeros(dim, dtype=complex)
+        e0[rng.randrange(dim)] = 1
+        states.append(e0)
+        for _ in range(2):
+            states.append(numpy.array([complex(rng.randint(-3, 3), rng.randint(-3, 3)) / 2 for _ in range(dim)]))
+        for psi in states:
+            scase = dict(case, state=[[v.real, v.imag] for v in psi])
+            st.case(scase)
+            st.count('non-hermitian-variance:' + cls)
+            e1 = numpy.vdot(psi, D @ psi)
+            e2 = numpy.vdot(psi, D @ (D @ psi))
+            phi = numpy.array([complex(rng.randint(-2, 2), rng.randint(-2, 2)) / 2 for _ in range(dim)])
+            rho_pure = numpy.outer(psi, psi.conj())
+            rho_mixed = 0.5 * rho_pure + 0.25 * numpy.outer(phi, phi.conj())
+            tests = [('expectation(sparse, 1-D vector)', lambda: of.expectation(M, psi), e1),
+                     ('expectation(sparse, column vector)', lambda: of.expectation(M, psi.reshape(-1, 1)), e1),
+                     ('variance(sparse, 1-D vector)', lambda: of.variance(M, psi), e2 - e1 ** 2),
+                     ('variance(sparse, column vector)', lambda: of.variance(M, psi.reshape(-1, 1)), e2 - e1 ** 2)]
+            for nm, rho in (('pure density matrix', rho_pure), ('mixed density matrix', rho_mixed)):
+                t1 = numpy.trace(rho @ D)
+                t2 = numpy.trace(rho @ D @ D)
+                sp = scipy.sparse.csc_matrix(rho)
+                tests += [('expectation(sparse, %s)' % nm, lambda sp=sp: of.expectation(M, sp), t1),
+                          ('variance(sparse, %s)' % nm, lambda sp=sp: of.variance(M, sp), t2 - t1 ** 2)]
+            if cls == 'qubit':
+                L = of.LinearQubitOperator(op, nq)
+                tests += [('expectation(LinearQubitOperator, 1-D vector)', lambda: of.expectation(L, psi), e1),
+                          ('variance(LinearQubitOperator, 1-D vector)', lambda: of.variance(L, psi), e2 - e1 ** 2),
+                          ('variance(LinearQubitOperator, column vector)',
+                           lambda: of.variance(L, psi.reshape(-1, 1)), e2 - e1 ** 2)]
+            for name, f, want in tests:
+                kind, got = safe(f)
+                st.float_comparisons += 1
+                if kind == 'err':
+                    st.violate(name + ' raised', scase, got)
+                elif not abs(complex(got) - complex(want)) <= 1e-9 * max(1.0, abs(complex(want))):
+                    st.violate(name + ' != psi^dagger M^k psi / Tr(rho M^k) of the matrix of the (non-Hermitian) operator',
+                               scase, {'got': str(complex(got)), 'want': str(complex(want))})
+
     # non-Hermitian operators: eigenspectrum must use the general eigenvalue routine, is_hermitian must say False.
     # Families with well-conditioned (distinct or exactly diagonal) spectra so that 1e-8 is decided with margin.
-    from openfermion.linalg import sparse_tools as stl
     Q, F = of.QubitOperator, of.FermionOperator
 
     def spec_dense(cls, op):
